@@ -11,38 +11,114 @@ Proof.
   left. apply IH. lia.
 Qed.
 
-Definition rt_sym (m cur : N) : bool :=
-  match umask_set cur (show_symbolic m) with ROk v => N.eqb v m | _ => false end.
-Definition rt_oct (m cur : N) : bool :=
-  match umask_set cur (show_octal m) with ROk v => N.eqb v m | _ => false end.
+(* The printed forms consist of clauses  who = literal  only.  For such
+   clauses the evaluation is  K | (current & W)  with K and W computed from the
+   clauses alone (algebra, any current mask); K and W are then evaluated for
+   each of the 512 masks (computation). *)
+Definition simple_clause (cl : clause) : option (N * N) :=
+  match cl_actions cl with
+  | [(USet, PLiteral k false)] => Some (k, cl_who cl)
+  | _ => None
+  end.
 
-Lemma rt_sym_all :
-  forallb (fun m => forallb (fun cur => rt_sym m cur) (N_range 512)) (N_range 512) = true.
+Fixpoint summary (cls : list clause) (K W : N) : option (N * N) :=
+  match cls with
+  | [] => Some (K, W)
+  | cl :: t =>
+      match simple_clause cl with
+      | Some (k, who) =>
+          summary t (N.lor (N.land k who) (N.land K (not16 who))) (N.land W (not16 who))
+      | None => None
+      end
+  end.
+
+Definition eval_from (c r : N) (cls : list clause) : N :=
+  fold_left
+    (fun result cl =>
+       fold_left
+         (fun result (a : uop * perm) =>
+            let resolution :=
+              match snd a with
+              | PCopyUser => copy3 (N.shiftr c 6)
+              | PCopyGroup => copy3 (N.shiftr c 3)
+              | PCopyOther => copy3 c
+              | PLiteral mask cx =>
+                  N.lor mask (if cx && negb (N.eqb (N.land c 73) 0) then 73 else 0)
+              end in
+            let who := cl_who cl in
+            match fst a with
+            | UAdd => N.lor (N.land resolution who) result
+            | URemove => N.land (not16 (N.land resolution who)) result
+            | USet => N.lor (N.land resolution who) (N.land result (not16 who))
+            end)
+         (cl_actions cl) result)
+    cls r.
+
+Lemma eval_clauses_from c cls : eval_clauses c cls = eval_from c c cls.
+Proof. reflexivity. Qed.
+
+Lemma eval_simple c : forall cls r K W K' W',
+  r = N.lor K (N.land c W) -> summary cls K W = Some (K', W') ->
+  eval_from c r cls = N.lor K' (N.land c W').
+Proof.
+  induction cls as [|cl t IH]; intros r K W K' W' Hr Hs.
+  - cbn in *. injection Hs as <- <-. exact Hr.
+  - cbn [summary] in Hs. unfold simple_clause in Hs.
+    destruct cl as [who acts]. cbn [cl_actions cl_who] in *.
+    destruct acts as [|[[| |] [| | |k [|]]] [|a2 acts']]; try discriminate.
+    unfold eval_from. cbn [fold_left fst snd cl_actions cl_who andb].
+    fold (eval_from c (N.lor (N.land (N.lor k 0) who) (N.land r (not16 who))) t).
+    eapply IH; [|exact Hs]. subst r.
+    rewrite N.lor_0_r, N.land_lor_distr_l, <- N.land_assoc, N.lor_assoc. reflexivity.
+Qed.
+
+Definition rt_all (show : N -> str) : bool :=
+  forallb (fun m =>
+             match parse_operand (show m) with
+             | ROk cls =>
+                 match summary cls 0 65535 with
+                 | Some (K, W) => N.eqb W 65024 && N.eqb (not16 (N.lor K 65024)) m
+                 | None => false
+                 end
+             | _ => false
+             end) (N_range 512).
+
+Lemma rt_sym_all : rt_all show_symbolic = true.
 Proof. vm_compute. reflexivity. Qed.
 
-Lemma rt_oct_all :
-  forallb (fun m => forallb (fun cur => rt_oct m cur) (N_range 512)) (N_range 512) = true.
+Lemma rt_oct_all : rt_all show_octal = true.
 Proof. vm_compute. reflexivity. Qed.
+
+Lemma high_bits_all :
+  forallb (fun cur => N.eqb (N.land (not16 cur) 65024) 65024
+                      && N.eqb (N.land (not16 cur) 65535) (not16 cur)) (N_range 512) = true.
+Proof. vm_compute. reflexivity. Qed.
+
+Lemma rt_all_spec show : rt_all show = true ->
+  forall m cur, m < 512 -> cur < 512 -> umask_set cur (show m) = ROk m.
+Proof.
+  intros H m cur Hm Hc. unfold rt_all in H. rewrite forallb_forall in H.
+  specialize (H m (In_N_range 512 m Hm)). unfold umask_set.
+  destruct (parse_operand (show m)) as [cls| |]; try discriminate.
+  destruct (summary cls 0 65535) as [[K W]|] eqn:Es; try discriminate.
+  apply andb_true_iff in H. destruct H as [HW HK].
+  apply N.eqb_eq in HW. apply N.eqb_eq in HK. subst W.
+  pose proof high_bits_all as Hh. rewrite forallb_forall in Hh.
+  specialize (Hh cur (In_N_range 512 cur Hc)). apply andb_true_iff in Hh.
+  destruct Hh as [Hh1 Hh2]. apply N.eqb_eq in Hh1. apply N.eqb_eq in Hh2.
+  rewrite eval_clauses_from.
+  rewrite (eval_simple (not16 cur) cls (not16 cur) 0 65535 K 65024); [| |exact Es].
+  - rewrite Hh1, HK. reflexivity.
+  - rewrite N.lor_0_l, Hh2. reflexivity.
+Qed.
 
 Lemma umask_symbolic_lemma m cur :
   m < 512 -> cur < 512 -> umask_set cur (show_symbolic m) = ROk m.
-Proof.
-  intros Hm Hc. pose proof rt_sym_all as H. rewrite forallb_forall in H.
-  specialize (H m (In_N_range 512 m Hm)). rewrite forallb_forall in H.
-  specialize (H cur (In_N_range 512 cur Hc)). unfold rt_sym in H.
-  destruct (umask_set cur (show_symbolic m)); try discriminate.
-  apply N.eqb_eq in H. subst. reflexivity.
-Qed.
+Proof. apply rt_all_spec. exact rt_sym_all. Qed.
 
 Lemma umask_octal_lemma m cur :
   m < 512 -> cur < 512 -> umask_set cur (show_octal m) = ROk m.
-Proof.
-  intros Hm Hc. pose proof rt_oct_all as H. rewrite forallb_forall in H.
-  specialize (H m (In_N_range 512 m Hm)). rewrite forallb_forall in H.
-  specialize (H cur (In_N_range 512 cur Hc)). unfold rt_oct in H.
-  destruct (umask_set cur (show_octal m)); try discriminate.
-  apply N.eqb_eq in H. subst. reflexivity.
-Qed.
+Proof. apply rt_all_spec. exact rt_oct_all. Qed.
 
 (* ---- fuel ---------------------------------------------------------------------- *)
 
